@@ -7,7 +7,8 @@ Domain : (a) the union-find core called directly (mj_dsuMerge / mj_dsuRoot / mj_
              columns, empty rows and row storage with gaps.
          (b) models: piles / rows of many kinematic trees on a plane (free, slide+hinge, ball, welded bodies), child
              links with limited joints and frictionloss, connect / weld / joint / tendon equalities between trees,
-             fixed tendons across trees with frictionloss and limits, plus vf.modelgen models; settled for 0..40 steps
+             fixed tendons across trees with frictionloss and limits; rows of adjacent single-dof trees coupled only through
+             generic-scan rows via the first dof of the later tree; plus vf.modelgen models; settled for 0..40 steps
              so that contacts exist; jacobian sparse (oracle) and dense (differential).
 Oracle : own connected-components code (BFS over an adjacency dict, 15 lines).  (a) same partition, island ids ascending
          in each island's smallest tree, untouched trees -1, nidof = sum of dofnum over active trees, mj_dsuRoot returns
@@ -15,8 +16,9 @@ Oracle : own connected-components code (BFS over an adjacency dict, 15 lines).  
          non-zeros of every efc_J row; islands == components; efc_island / dof_island / tree_island consistent; dofs of
          unconstrained trees -1; the dof, efc and tree index maps are mutually inverse permutations and contiguous per
          island; address arrays are cumulative sums; per-island equality/friction counts; island-ordered copies of
-         efc_type/id/D/R/frictionloss are gathers; the dense Jacobian run yields the same partition whenever its
-         numerical incidence equals the structural one.
+         efc_type/id/D/R/frictionloss are gathers; the dense Jacobian run is judged directly against the components of its own
+         incidence (numerical non-zeros for the rows that take the generic scan: tendon friction/limit, joint/tendon equalities;
+         body trees for the shortcut rows) and must equal the sparse partition whenever the incidences coincide.
 Non-trivial : >= 3 islands, or a merge chain of length >= 3 (an island with >= 4 trees / a component built by >= 3 unions).
 """
 import itertools
@@ -237,6 +239,60 @@ def pile_models(draw):
   return mg.GenModel(xml, dict(labels=labels))
 
 
+@st.composite
+def adjacent_models(draw):
+  """Rows of small kinematic trees (mostly a single hinge or slide) coupled ONLY through rows that take the generic Jacobian scan
+  (joint equalities, tendon equalities, tendon friction loss, tendon limits) between trees that are adjacent in dof order, the
+  later tree usually being touched through its FIRST dof only.  No contacts, so nothing else merges the trees."""
+  n = draw(st.integers(2, 8))
+  bodies, joints = [], []          # joints[i] = list of joint names of tree i (in dof order)
+  for i in range(n):
+    kind = draw(st.sampled_from(['hinge', 'hinge', 'hinge', 'slide', 'two', 'two_hs']))
+    fl = ' frictionloss="0.3"' if draw(st.integers(0, 5)) == 0 else ''
+    lim = ' limited="true" range="0.2 0.5"' if draw(st.integers(0, 7)) == 0 else ''      # violated at qpos0: limit row of one tree
+    if kind == 'hinge':
+      jx = '<joint name="j%da" type="hinge" axis="0 1 0"%s%s/>' % (i, fl, lim)
+      names = ['j%da' % i]
+    elif kind == 'slide':
+      jx = '<joint name="j%da" type="slide" axis="0 0 1"%s%s/>' % (i, fl, lim)
+      names = ['j%da' % i]
+    elif kind == 'two':
+      jx = '<joint name="j%da" type="slide" axis="0 0 1"%s/><joint name="j%db" type="hinge" axis="0 1 0"%s/>' % (i, fl, i, lim)
+      names = ['j%da' % i, 'j%db' % i]
+    else:
+      jx = '<joint name="j%da" type="hinge" axis="0 1 0"/><joint name="j%db" type="slide" axis="1 0 0"%s/>' % (i, i, fl)
+      names = ['j%da' % i, 'j%db' % i]
+    joints.append(names)
+    bodies.append('<body name="t%d" pos="%d 0 1">%s<geom name="g%d" type="capsule" size="0.05 0.2" pos="0 0 -0.2" contype="0" conaffinity="0"/></body>' % (
+        i, i, jx, i))
+  eq, tend = '', ''
+  nt = 0
+  pairs = [(i, i + 1) for i in range(n - 1) if draw(st.integers(0, 9)) < 6]
+  if n >= 3 and draw(st.integers(0, 4)) == 0:
+    a = draw(st.integers(0, n - 3))
+    pairs.append((a, a + 2))
+  for k, (a, b) in enumerate(pairs):
+    ja = draw(st.sampled_from(joints[a]))
+    jb = joints[b][0] if draw(st.integers(0, 9)) < 8 else draw(st.sampled_from(joints[b]))
+    mode = draw(st.sampled_from(['jointeq', 'jointeq', 'tendon-friction', 'tendon-limit', 'tendon-eq']))
+    if draw(st.booleans()):
+      ja, jb = jb, ja                     # either order in the document
+    if mode == 'jointeq':
+      act = '' if draw(st.integers(0, 7)) else ' active="false"'
+      eq += '<joint name="e%d" joint1="%s" joint2="%s" polycoef="0 %s 0 0 0"%s/>' % (k, ja, jb, draw(st.sampled_from(['1', '-1', '0.5', '2'])), act)
+    else:
+      a_ = {'tendon-friction': ' frictionloss="0.5"', 'tendon-limit': ' limited="true" range="0.05 0.1"', 'tendon-eq': ''}[mode]
+      tend += '<fixed name="td%d"%s><joint joint="%s" coef="1"/><joint joint="%s" coef="%s"/></fixed>' % (
+          nt, a_, ja, jb, draw(st.sampled_from(['1', '-2', '0.5'])))
+      if mode == 'tendon-eq':
+        eq += '<tendon name="te%d" tendon1="td%d"/>' % (nt, nt)
+      nt += 1
+  solver = draw(st.sampled_from(['Newton', 'CG']))
+  xml = ('<mujoco><option jacobian="sparse" solver="%s" timestep="0.002"><flag island="disable"/></option><worldbody>%s</worldbody>%s%s</mujoco>') % (
+      solver, ''.join(bodies), '<tendon>%s</tendon>' % tend if tend else '', '<equality>%s</equality>' % eq if eq else '')
+  return mg.GenModel(xml, dict(labels=['adjacent', 'solver:' + solver] + (['eq'] if eq else []) + (['tendon'] if tend else [])))
+
+
 def row_trees_sparse(m, d):
   """Per efc row: frozenset of trees of the structural non-zeros of efc_J (sparse layout)."""
   nnz, adr, col = d.efc_J_rownnz, d.efc_J_rowadr, d.efc_J_colind
@@ -333,6 +389,32 @@ def check_islands(lib, m, d, rows, what):
   return label, k
 
 
+def dense_oracle_rows(lib, m, d, m2, d2, rows_sparse):
+  """Tree incidence of every row of the DENSE run, for judging it directly against the component oracle.
+  Rows that the engine resolves through the generic Jacobian scan (tendon friction / limit, joint and tendon equalities) couple
+  exactly the trees in which the dense row is numerically non-zero (documented in engine_island.c: dense scan tests J[j]); all
+  other rows (dof friction, joint limits, contacts, connect / weld) couple the trees of the bodies involved whatever the values,
+  which is the structural pattern of the same row in the sparse run at the same state.  Dense mode may drop constraints whose
+  Jacobian is entirely zero, so rows are aligned by their (type, id) sequence.  Returns None if the alignment fails."""
+  E = lib.enums
+  ks = list(zip(d.efc_type.tolist(), d.efc_id.tolist()))
+  kd = list(zip(d2.efc_type.tolist(), d2.efc_id.tolist()))
+  numeric = row_trees_dense(m2, d2)
+  eqt = m.eq_type.tolist()
+  out, p = [], 0
+  for i, key in enumerate(kd):
+    while p < len(ks) and ks[p] != key:
+      p += 1
+    if p == len(ks):
+      return None
+    t, cid = key
+    generic = t in (E.mjCNSTR_FRICTION_TENDON, E.mjCNSTR_LIMIT_TENDON) or (
+        t == E.mjCNSTR_EQUALITY and eqt[cid] in (E.mjEQ_JOINT, E.mjEQ_TENDON))
+    out.append(numeric[i] if generic else rows_sparse[p])
+    p += 1
+  return out
+
+
 def check_model(ck, lib, gm, seed, nsteps):
   from vf import mj
   E = lib.enums
@@ -356,7 +438,7 @@ def check_model(ck, lib, gm, seed, nsteps):
   isl_on = isl_off & ~int(E.mjDSBL_ISLAND)
   ck.journal(dict(xml=gm.xml, seed=seed, nsteps=nsteps))
   d = lib.make_data(m)
-  if 'pile' in gm.labels():
+  if 'pile' in gm.labels() or 'adjacent' in gm.labels():
     rng = np.random.RandomState(seed)
     d.qvel[:] = rng.uniform(-0.3, 0.3, m.nv)
   else:
@@ -395,27 +477,22 @@ def check_model(ck, lib, gm, seed, nsteps):
   lib.mj_setState(m2, d2, st_, full)
   lib.mj_fwdPosition(m2, d2)
   labels = []
-  if int(d2.nefc) != nefc or d2.efc_type.tolist() != d.efc_type.tolist() or d2.efc_id.tolist() != d.efc_id.tolist():
-    labels.append('dense:different-rows')     # the two runs are not comparable row by row (not an island question)
+  # (i) the dense run judged directly: components of its own incidence (numeric for generic-scan rows)
+  rows_do = dense_oracle_rows(lib, m, d, m2, d2, rows)
+  if rows_do is None:
+    labels.append('dense:rows-not-alignable')
   else:
-    rows_d = row_trees_dense(m2, d2)
-    # group rows of the same constraint (the engine treats a multi-row constraint as one unit)
-    def grouped(rows_):
-      out, et, eid = [], d.efc_type.tolist(), d.efc_id.tolist()
-      for i, r in enumerate(rows_):
-        if i and et[i] == et[i - 1] and eid[i] == eid[i - 1]:
-          out[-1] = out[-1] | r
-        else:
-          out.append(r)
-      return out
-    if grouped(rows_d) == grouped(rows):
-      if int(d2.nisland) != k or (k and d2.tree_island.tolist() != label):
-        raise Violation('dense Jacobian run gives a different partition: nisland=%d tree_island=%s, sparse %d %s' % (
-            int(d2.nisland), d2.tree_island.tolist() if d2.nisland else [], k, label), bucket='model-dense-vs-sparse')
-      if k:
-        check_islands(lib, m2, d2, rows, 'dense')
+    label_d, k_d = check_islands(lib, m2, d2, rows_do, 'dense(direct)')
+    labels.append('dense:direct')
+    if int(d2.nefc) != nefc:
+      labels.append('dense:dropped-zero-rows')
+    # (ii) differential: same rows and same incidence => same partition as the sparse run
+    if int(d2.nefc) == nefc and rows_do == rows:
+      if k_d != k or label_d != label:
+        raise Violation('dense Jacobian run gives a different partition: %d %s, sparse %d %s' % (k_d, label_d, k, label),
+                        bucket='model-dense-vs-sparse')
       labels.append('dense:compared')
-    else:
+    elif int(d2.nefc) == nefc:
       labels.append('dense:numeric-incidence-differs')
   # a constrained dof belongs to an island, an unconstrained one to none (statement), seen from the rows
   touched = set().union(*rows) if rows else set()
@@ -428,7 +505,7 @@ def check_model(ck, lib, gm, seed, nsteps):
                       xml=gm.xml if len(gm.xml) < 3000 else gm.xml[:3000]) if nt else None,
           labels=['model', 'nisland=%s' % (k if k < 4 else '>=4'), 'largest-island-trees=%s' % (big if big < 4 else '>=4'),
                   'unconstrained-trees' if ntrees_active < m.ntree else 'all-trees-constrained'] + labels +
-                 ['efc-type:%d' % t for t in kinds] + [l for l in gm.labels() if l.startswith(('pile', 'eq', 'tendon', 'cone', 'solver'))])
+                 ['efc-type:%d' % t for t in kinds] + [l for l in gm.labels() if l.startswith(('pile', 'adjacent', 'eq', 'tendon', 'cone', 'solver'))])
 
 
 # ------------------------------------------------------------------ main
@@ -442,8 +519,8 @@ def main(ck):
   ck.assumptions = ['solver PGS is not generated: with a sparse Jacobian this tree raises "pre and post-count of Y_rownnz are not equal" in '
                     'mj_projectConstraint for tendon rows over simple (diagonal-inertia) dofs - a defect outside island discovery, reported separately',
                     'no flex in generated models (the flex-stiffness clause of the statement is not exercised)', 'sleeping disabled',
-                    'dense-vs-sparse partitions are compared only when the numerical non-zero pattern of the dense efc_J spans the same '
-                    'trees as the structural sparse pattern (otherwise labelled, not judged)']
+                    'the dense run is judged against the components of its own incidence: numerical non-zeros for generic-scan rows (tendon friction/limit, '
+                    'joint/tendon equality), body trees (= structural sparse pattern at the same state) for shortcut rows']
 
   # ---- (a1) exhaustive union-find
   plan = [(3, 4), (4, 3), (5, 3), (6, 2)] if ck.quick else [(3, 5), (4, 4), (5, 3), (6, 3)]
@@ -558,7 +635,7 @@ def main(ck):
   def test_model(case):
     gm, seed, nsteps = case
     check_model(ck, lib, gm, seed, nsteps)
-  gen = st.one_of(pile_models(), pile_models(),
+  gen = st.one_of(pile_models(), pile_models(), adjacent_models(), adjacent_models(),
                   mg.models(min_bodies=3, max_bodies=9, plane=True, spread=0.6, sensors=False, actuators=False,
                             joint_types=('free', 'hinge', 'slide'),     # no hinge+ball stacks (singular inertia)
                             opt_kwargs=dict(islands=False, jacobians=('sparse',), flags=False, integrators=('Euler', 'implicitfast'),
@@ -575,5 +652,5 @@ multi-tree models (contacts, connect/weld/joint/tendon equalities, tendon fricti
 mjData is compared with the connected components of the tree incidence of the sparse constraint Jacobian computed by own BFS code; the index maps are
 checked to be mutually inverse, contiguous per island, with cumulative address arrays; the dense-Jacobian run must give the same partition.'''
 LEVEL_NOTE = '''Flex models are not generated, so the flex-stiffness coupling clause is not exercised. The order of dofs/rows inside an island segment is
-not asserted (only contiguity and inverse maps), except island_dofadr == smallest dof of the island. Dense vs sparse partitions are compared only when the
-numerical support of the dense Jacobian spans the same trees as the structural sparse pattern. Island discovery under sleeping is out of scope here (C18).'''
+not asserted (only contiguity and inverse maps), except island_dofadr == smallest dof of the island. The dense run is judged on its own numerical incidence (generic-scan rows) and
+additionally against the sparse partition when both incidences coincide. Island discovery under sleeping is out of scope here (C18).'''
